@@ -5,8 +5,8 @@ from tools.lib import Case
 ID = 'C12'
 EXHAUSTIVE = True
 RULE = ('histories = start array (all shapes 0..3 x 0..3, fixed distinct entries) followed by an operation sequence; '
-        'exhaustive: every sequence of depth 3 (thorough: 4) over a core alphabet of operations with small parameters, '
-        'every sequence of depth 2 (thorough: 3 over the middle alphabet) whose first or second operation ranges over the '
+        'exhaustive: every sequence of depth 3 over the middle alphabet of 26 operations with small parameters (thorough: also depth 4 '
+        'over the 12-operation core alphabet), every sequence of depth 2 whose first or second operation ranges over the '
         'wide alphabet (all reshape heights, all row pairs, all (r,c) in 0..3 x 0..3, all row lengths, all constructor shapes); '
         'plus random sequences of length 40 on shapes up to 6x6 (80% valid / 20% invalid parameters); after EVERY step the '
         'full observation (shape, size, is_empty, every element through both index forms incl. one row/column beyond the edge, '
@@ -22,7 +22,7 @@ ASSUMPTIONS = ['i64 entries stay below 100 in absolute value (map / rows_mut use
                'oracle leniency (reported): swap_rows with an out-of-range row does NOT fail when a == b or width == 0 (no cell is '
                'addressed) - the oracle accepts "no failure, array unchanged" there; from_flat onto a zero-size shape with empty '
                'data is rejected with InvalidShape - the oracle accepts rejection or the empty grid',
-               'From<&[[T;N];M]> (const-generic array construction) and element conversion failures of TryFrom are not exercised']
+               'From<&[[T;N];M]> is exercised for shapes up to 4x4 (const generics); element conversion failures of TryFrom are not exercised']
 
 
 # ----------------------------------------------------------------- the plain grid (oracle)
@@ -100,6 +100,9 @@ def step(st, op):
         if any(len(r) != len(rows[0]) for r in rows):
             return [('err InconsistentRowLengths', st)]
         return [('ok', (len(rows), len(rows[0]), tuple(tuple(r) for r in rows)))]
+    if k == 'fa':
+        _, nh, nw, vals = op
+        return [('ok', mk(nh, nw, lambda r, c: vals[r * nw + c]))]
     if k == 'ff':
         _, data, d, nh, nw = op
         if len(data) > nh * nw:
@@ -175,6 +178,8 @@ def op_tokens(op):
         return ('ff %d %s' % (len(op[1]), ' '.join(map(str, op[1])))).strip() + ' %d %d %d' % (op[2], op[3], op[4])
     if k == 'sr':
         return ('sr %d %d %s' % (op[1], len(op[2]), ' '.join(map(str, op[2])))).strip()
+    if k == 'fa':
+        return ('fa %d %d %s' % (op[1], op[2], ' '.join(map(str, op[3])))).strip()
     return ' '.join(str(x) for x in op)
 
 
@@ -211,6 +216,9 @@ def parse_line(line):
         elif c == 'ff':
             data = ivec()
             ops.append(('ff', data, int(nxt()), int(nxt()), int(nxt())))
+        elif c == 'fa':
+            nh, nw = int(nxt()), int(nxt())
+            ops.append(('fa', nh, nw, tuple(int(nxt()) for _ in range(nh * nw))))
         elif c == 'fu':
             ops.append(('fu', int(nxt()), int(nxt()), int(nxt())))
         elif c in ('id', 'rs'):
@@ -232,12 +240,12 @@ START_VALS = [5, -3, 12, 0, -10, 7, 1, -1, 9]
 
 CORE = [('rs', 1), ('rs', 2), ('tr',), ('tm',), ('sw', 0, 1), ('s1', 0, 1, -42), ('s2', 1, 0, 33),
         ('sr', 0, (8, -8)), ('rm', 1, 1), ('fn', ((1, 2), (3, 4), (5, 6))), ('ff', (1, 2, 3), -6, 2, 2), ('fu', 4, 0, 2)]
-MID = CORE + [('rs', 0), ('rs', 3), ('sw', 1, 2), ('sw', 2, 2), ('mp', -1, 2), ('id', 2), ('cl',), ('tf',),
+MID = CORE + [('rs', 0), ('rs', 3), ('sw', 1, 2), ('sw', 2, 2), ('mp', -1, 2), ('id', 2), ('cl',), ('tf',), ('fa', 2, 2, (-4, 40, 4, -40)),
               ('fn', ((1, 2), (3,))), ('ff', (1, 2, 3, 4, 5), 0, 2, 2), ('sr', 1, (7, 70, -7)), ('s1', 2, 2, 11), ('fu', 5, 3, 0)]
 
 
 def wide():
-    ops = [('tr',), ('tm',), ('cl',), ('tf',), ('rm', 1, 1), ('rm', -2, 5), ('mp', -1, 2), ('mp', 3, -7)]
+    ops = [('tr',), ('tm',), ('cl',), ('tf',), ('rm', 1, 1), ('rm', -2, 4), ('mp', -1, 2), ('mp', 3, -7)]
     ops += [('rs', k) for k in (0, 1, 2, 3, 4, 6, 9)]
     ops += [('sw', a, b) for a in range(4) for b in range(4)]
     ops += [(s, r, c, 21) for s in ('s1', 's2') for r in range(4) for c in range(4)]
@@ -246,6 +254,8 @@ def wide():
     ops += [('id', n) for n in range(4)]
     ops += [('fn', ()), ('fn', ((),)), ('fn', ((), ())), ('fn', ((1, 2, 3),)), ('fn', ((1,), (2,), (3,))),
             ('fn', ((1, 2), (3,))), ('fn', ((), (1,))), ('fn', ((10, -20), (3, 4)))]
+    ops += [('fa', 0, 0, ()), ('fa', 0, 2, ()), ('fa', 3, 0, ()), ('fa', 1, 3, (1, -2, 3)), ('fa', 3, 1, (1, -2, 3)),
+            ('fa', 2, 3, (1, 2, 3, 4, 5, 6))]
     ops += [('ff', (), 0, 0, 0), ('ff', (), 1, 0, 3), ('ff', (), 9, 2, 2), ('ff', (1,), 0, 0, 0), ('ff', (1, 2, 3, 4), 0, 2, 2),
             ('ff', (1, 2, 3, 4, 5), 0, 2, 2), ('ff', (1, 2), -1, 3, 1), ('ff', (1, 2), -1, 1, 3), ('ff', (1,), 0, 3, 0)]
     return ops
@@ -270,7 +280,7 @@ def seqs(alphabets):
 
 def random_op(rng, st, valid):
     h, w, _ = st
-    kind = rng.choice(['rs', 'tr', 'tm', 'sw', 'sw', 's1', 's2', 's1', 's2', 'sr', 'sr', 'rm', 'mp', 'fn', 'ff', 'fu', 'id', 'cl', 'tf'])
+    kind = rng.choice(['rs', 'tr', 'tm', 'sw', 'sw', 's1', 's2', 's1', 's2', 'sr', 'sr', 'rm', 'mp', 'fn', 'fa', 'ff', 'fu', 'id', 'cl', 'tf'])
     v = rng.randint(-99, 99)
     if kind == 'rs':
         n = h * w
@@ -304,6 +314,9 @@ def random_op(rng, st, valid):
             k = rng.randrange(1, nh)
             rows[k] = rows[k][:-1] if nw and rng.random() < 0.5 else rows[k] + [0]
         return ('fn', tuple(tuple(r) for r in rows))
+    if kind == 'fa':
+        nh, nw = rng.randint(0, 4), rng.randint(0, 4)
+        return ('fa', nh, nw, tuple(rng.randint(-99, 99) for _ in range(nh * nw)))
     if kind == 'ff':
         nh, nw = rng.randint(0, 6), rng.randint(0, 6)
         n = nh * nw
@@ -320,7 +333,7 @@ def gen(rng, tier):
     core, mid, big = CORE, MID, wide()
     S = starts()
     if tier == 'quick':
-        plans = [('depth3-core', [core, core, core]), ('depth2-wide-first', [big, mid]), ('depth2-wide-second', [mid, big]),
+        plans = [('depth3-mid', [mid, mid, mid]), ('depth2-wide-first', [big, mid]), ('depth2-wide-second', [mid, big]),
                  ('depth1-wide', [big])]
         n_random = 300
     else:
